@@ -8,6 +8,7 @@ def txTypeAlonzoEra : Nat := 4 -- ledger/alonzo.TxTypeAlonzo
 def txTypeBabbageEra : Nat := 5 -- ledger/babbage.TxTypeBabbage
 def txTypeConwayEra : Nat := 6 -- ledger/conway.TxTypeConway
 def txTypeDijkstraEra : Nat := 7 -- ledger/dijkstra.TxTypeDijkstra
+def dijkstraDecodeMaxTxSize : Nat := 16384 -- ledger/dijkstra.MaxTxSize
 def protocolVersionConway : Nat := 9 -- ledger/common.ProtocolVersionConway
 def protocolVersionPlomin : Nat := 10 -- ledger/common.ProtocolVersionPlomin
 def protocolVersionVanRossem : Nat := 11 -- ledger/common.ProtocolVersionVanRossem
